@@ -76,7 +76,7 @@ def r1_generation(ctx):
         table = {"mahf::state::registry::StateRegistry::borrow": Sym("pm", boxlike=True), "mahf::state::State::random_mut": Sym("rng"),
                  "mahf::problems::VectorProblem::dimension": dim, "mahf::problems::TravellingSalespersonProblem::distance": dist,
                  "rand::distributions::weighted_index::WeightedIndex::new": wnew, "rand::distributions::distribution::Distribution::sample": sample,
-                 "mahf::state::State::populations_mut": Sym("populations"), "mahf::state::common::Populations::current_mut": Ref(home, [])}
+                 "mahf::state::State::populations_mut": Sym("populations"), "mahf::state::common::Populations::current_mut": Ref(home, [], frame="root")}
         table.update(matrix_oracles(dim))
         it = install(Interp(fn.body, chain(mk_oracle(table), coll_oracle, std_oracle), [me, Sym("problem"), Sym("state")], facts=F, inline=c07.INLINE, max_visits=40, max_paths=100))
         heap = {"row%d" % i: tuple(val if i != j else 0.0 for j in range(dim)) for i in range(dim)}
